@@ -233,7 +233,7 @@ pub fn row_of(plan: &Plan, sch: &Schema, c: u64, r: u64) -> Row {
     Row { stats, draws, tuning }
 }
 
-fn reference_of(plan: &Plan, sch: &Schema, store_warmup: bool) -> Reference {
+pub fn reference_of(plan: &Plan, sch: &Schema, store_warmup: bool) -> Reference {
     let chains = plan.recorded.iter().enumerate().map(|(c, (w, s))| (0..w + s).map(|r| row_of(plan, sch, c as u64, r)).collect()).collect();
     Reference { num_tune: plan.num_tune, num_draws: plan.num_draws, store_warmup, chains }
 }
@@ -271,7 +271,7 @@ fn drive<C: StorageConfig, S: Settings>(config: C, settings: &S, math: &CpuMath<
     }
 }
 
-type Fail = (String, String);
+pub type Fail = (String, String);
 
 fn mismatch(what: &str, name: &str, chain: usize, detail: String) -> Fail {
     (what.to_string(), format!("{name} (chain {chain}): {detail}"))
@@ -993,7 +993,7 @@ impl crate::tools::density::EvalHooks for Slow {
     }
 }
 
-fn collect_rows(rows: &crate::tools::storage::SharedRows, nc: usize) -> Vec<Vec<Row>> {
+pub fn collect_rows(rows: &crate::tools::storage::SharedRows, nc: usize) -> Vec<Vec<Row>> {
     let g = rows.lock().unwrap();
     (0..nc as u64).map(|c| g.get(&c).cloned().unwrap_or_default()).collect()
 }
